@@ -18,6 +18,7 @@ typedef struct error_context_s {
 /* longjmp() contexts for native C error handling */
 void pop_context(error_context_t *);
 void restore_context(error_context_t *);
+void restore_context_args(error_context_t *, int);
 int save_context(error_context_t *);
 
 /* LPC error handling */
